@@ -321,7 +321,8 @@ def pair_cfg(path: str, w: int, max_id: int, max_pipe: int, max_ob: int, emit: b
 
 def run_pair(rep: C.Report, wd: str, tier: str, seed: int) -> None:
     mc = [(2, 2, 4, 4)] if tier == "quick" else [(2, 3, 6, 4), (3, 2, 6, 6)]   # (3, 3, 9, 6) exceeds 5e7 states in 10 min
-    em = [(2, 2, 2, 2)] if tier == "quick" else [(2, 2, 2, 2), (3, 2, 3, 3)]
+    # (2, 1, 4, 4): one request, but room for it and an unbind in the outgoing buffer (closure with output still queued)
+    em = [(2, 2, 2, 2), (2, 1, 4, 4)] if tier == "quick" else [(2, 2, 2, 2), (2, 1, 4, 4), (3, 2, 3, 3), (2, 2, 2, 4)]
     jobs = []
     for j, (w, mi, mp_, mo) in enumerate(mc):
         p = os.path.join(wd, f"pair-mc-{j}.cfg")
